@@ -5,7 +5,9 @@ TRUSTED_BASE = [
     "axioms: none (Print Assumptions of every property theorem is re-run and must be 'Closed under the global context')",
     "extraction to OCaml: ExtrOcamlBasic, ExtrOcamlChar, ExtrOcamlString directives only; nat/N/Z stay inductive; OCaml 4.13.1",
     "extracted/modelrun.ml (hand-written line-protocol driver), harness/ (Rust driver of the real crate), gen/*.py, tools/check, tools/pins.py",
-    "the hand-written Gallina model is tied to the code only by the differential run and the source pins of this run",
+    "the hand-written Gallina model is tied to the code by the differential run and the source pins of this run; for the functions listed in "
+    "coq/Gen/*.v the model is additionally PROVED equal to a Gallina translation of the current source text (tools/rs2coq.py, a small Rust-subset "
+    "translator: trusted for 'this term is what that Rust text means' on the subset it accepts)",
 ]
 
 PROPS = {
